@@ -6,6 +6,8 @@ mod node;
 mod store;
 mod refpb;
 mod rng;
+mod sim;
+mod simrun;
 mod sink;
 mod streams {
     pub mod cidl;
@@ -75,6 +77,19 @@ fn main() {
         "hash" => streams::cidl::hash_stream(seed, cases, args.iter().any(|a| a == "--exhaustive"), &mut ex),
         "procmsg" => streams::cidl::procmsg_stream(seed, cases, &mut ex),
         "proto" => streams::cidl::proto_stream(seed, cases, maxlen, &mut ex),
+        "sim" | "simfault" | "simlate" | "simproto" => {
+            let cfg = simrun::SimCfg {
+                max_nodes: arg(&args, "--nodes", 3),
+                keys: arg(&args, "--keys", 3),
+                actions: arg(&args, "--actions", 30),
+                faults: stream != "sim" && stream != "simproto",
+                late_ack: stream == "simlate",
+                prefixes: stream == "simproto",
+                max_conns_per_pair: arg(&args, "--conns", 2),
+            };
+            let rs: u64 = arg(&args, "--runseed", 0);
+            simrun::sim_stream(seed, if rs != 0 { 1 } else { cases }, cfg, &out, stream, if rs != 0 { Some(rs) } else { None })
+        }
         "node" => streams::node::node_stream(seed, cases, streams::node::Cfg { keys: arg(&args, "--keys", 5), peers: arg(&args, "--peers", 3), ops: arg(&args, "--ops", 80), big_wantlists: false }),
         "nodebig" => streams::node::node_stream(seed, cases, streams::node::Cfg { keys: 3100, peers: 2, ops: arg(&args, "--ops", 30), big_wantlists: true }),
         _ => {
